@@ -24,6 +24,13 @@ def histories(tier):
             k0, label = starts[(3 * i) % len(starts)]
             i += 1
             out.append((dict(rf.Cfg(n=n, d=d, fc=fc, sc=sc, start=k0, **U.MODES[mode])), ops, "%s %s %s" % (mode, lname, label)))
+    # files of 26-27 samples: after a fault at a rollover several further calls stay inside one file
+    n, d, fc, sc = 200, 3, 400, 2
+    k0 = rf.first_sample_of_ms(1394368230000 // 2000 * 2000, n, d) + 20
+    big = [("open", {}), ("wb", [0, 3], [0, 2], 4), ("wb", [5, 12], [0, 3], 6), ("wb", [16, 19], [0, 2], 3), ("w", 22, 2),
+           ("wb", [25, 29], [0, 1], 3), ("close",)]
+    for mode in modes:
+        out.append((dict(rf.Cfg(n=n, d=d, fc=fc, sc=sc, start=k0, **U.MODES[mode])), big, "%s calls_within_big_files" % mode))
     return out
 
 
@@ -180,7 +187,7 @@ def main(tier):
     )
     stage.activate()
     hs = histories(tier)
-    bases = core.pmap(baseline, hs, chunksize=1)
+    bases = core.pmap(baseline, hs, chunksize=1, isolate=False)
     jobs = []
     for item, base in zip(hs, bases):
         sched = []
@@ -203,6 +210,6 @@ def main(tier):
         chk.extra["deviation_bound_completed"] = 1
     rot = core.seed() % len(jobs)
     jobs = jobs[rot:] + jobs[:rot]
-    for part in core.pmap(run_schedules, jobs, chunksize=1):
+    for part in core.pmap(run_schedules, jobs, chunksize=1, isolate=False):
         chk.merge(part)
     return chk.finish()
